@@ -4,7 +4,7 @@
    and forwards on the real mediator service, with what it handed to its outbound dispatcher / pickup service. *)
 From Coq Require Import List NArith Bool.
 Import ListNotations.
-From VF Require Export C14.Model.
+From VF Require Export C14.Model C14.Opaque.
 Local Open Scope N_scope.
 
 (* what a party obtained from the bytes of one level *)
@@ -60,12 +60,24 @@ Fixpoint check_levels (ls : list layer) (w : wire) (levels : list (list (list N 
       end
   end.
 
+(* hop opacity on this case (C14/Opaque.v): the hypotheses of hop_opacity_dolev_yao hold for the coalition of every
+   key pair that is not a recipient's against the payload's name and the recipients' CEK seed ([coalition_ok], sound by
+   Props.send_ok_b_is_sound), and the whole view — recipients' envelope, every layer, every forward plaintext, written
+   as terms — is safe for that coalition ([coalition_safe]; Props.coalition_cannot_derive) *)
+Definition opaque_case (c : wcase) (pf : profile) (ls : list layer) : bool :=
+  let cf := cfg_of pf (w_auth c) (w_kt c) (w_enc c) (w_style c) in
+  coalition_ok FFixed cf pf (w_spar c) (w_sender c) (w_payload c) (w_rcpts c) (w_routing c) rnd0 &&
+  match pack cf (w_spar c) (pay_id (w_payload c)) (w_sender c) (w_rcpts c) rnd0 with
+  | Ok w0 => coalition_safe cf (w_sender c) (w_payload c) (w_rcpts c) rnd0 w0 ls
+  | _ => false
+  end.
+
 Definition check_wcase (c : wcase) : bool :=
   match family (media_type (w_accept c) (w_default c)) with
   | None => false
   | Some pf =>
   match wrap FFixed (cfg_of pf (w_auth c) (w_kt c) (w_enc c) (w_style c)) pf (w_spar c) (w_payload c) (w_sender c) (w_rcpts c) (w_routing c) rnd0 with
-  | Ok (outer, ls) => w_sent c && check_levels ls outer (w_levels c)
+  | Ok (outer, ls) => w_sent c && check_levels ls outer (w_levels c) && opaque_case c pf ls
   | _ => negb (w_sent c)
   end
   end.
